@@ -54,8 +54,9 @@ template<int K, LieGroup G>
 template<typename S>
 CastT<S, G> BSpline<K, G>::operator()(const S & t, OptTangent<CastT<S, G>> vel, OptTangent<CastT<S, G>> acc) const
 {
-  // index of relevant interval
-  int64_t istar = static_cast<int64_t>((static_cast<double>(t) - m_t0) / m_dt);
+  // index of relevant interval (clamped before the conversion, which is undefined outside the range of int64_t)
+  int64_t istar = static_cast<int64_t>(
+    std::clamp((static_cast<double>(t) - m_t0) / m_dt, -1., static_cast<double>(m_ctrl_pts.size())));
 
   S u;
   // clamp to end of range if necessary
